@@ -1333,6 +1333,8 @@ def is_value_memo_store(prog: Program, f: FuncInfo, stmt: ast.stmt, cache: str) 
     subs = [t for t in stmt.targets if isinstance(t, ast.Subscript) and isinstance(t.value, ast.Name) and t.value.id == cache]
     if len(subs) != 1:
         return False
+    if not _injective_key(f, subs[0].slice):
+        return False
     kl = {x for x in dep_leaves(prog, f, subs[0].slice) if not x.startswith("call:")}
     vl = dep_leaves(prog, f, stmt.value)
     if any(x.startswith("self.") or (f.self_name and x.startswith(f.self_name + ".")) for x in vl):
@@ -1346,6 +1348,37 @@ def is_value_memo_store(prog: Program, f: FuncInfo, stmt: ast.stmt, cache: str) 
     if not (bool(kl) and data <= kl):
         return False
     return not memo_value_written(prog, f, stmt, cache)
+
+
+def _injective_key(f: FuncInfo, key: ast.expr, depth: int = 0) -> bool:
+    """Two different values of what the key is made of give two different keys: names, attributes, constants, tuples of those, and the exact renderings
+    `.tobytes()`, `.tolist()`, `.shape`, `.dtype`, tuple(), str(), repr(), bytes(), float(), id-free.  `hash(...)`, `round(...)`, `int(...)`, arithmetic and
+    anything else can map different inputs to the same key - the entry is then not a function of the inputs."""
+    if depth > 6:
+        return False
+    if isinstance(key, ast.Constant):
+        return True
+    if isinstance(key, ast.Name):
+        env = single_assignment_env(f.node)
+        if key.id in env and key.id not in f.params:
+            return _injective_key(f, env[key.id], depth + 1)
+        return True
+    if isinstance(key, ast.Attribute):
+        return _injective_key(f, key.value, depth + 1)
+    if isinstance(key, (ast.Tuple, ast.List)):
+        return all(_injective_key(f, e, depth + 1) for e in key.elts)
+    if isinstance(key, ast.Call) and not key.keywords:
+        if isinstance(key.func, ast.Attribute) and key.func.attr in ("tobytes", "tolist") and not key.args:
+            return _injective_key(f, key.func.value, depth + 1)
+        d = dotted(key.func) or ""
+        if d in ("tuple", "str", "repr", "bytes", "float", "np.ascontiguousarray", "numpy.ascontiguousarray", "np.asarray", "numpy.asarray", "frozenset") and len(key.args) == 1:
+            return _injective_key(f, key.args[0], depth + 1)
+    if isinstance(key, ast.Call) and (dotted(key.func) or "") in ("np.ascontiguousarray", "numpy.ascontiguousarray", "np.asarray", "numpy.asarray") and len(key.args) == 1 \
+            and all(k.arg == "dtype" for k in key.keywords):
+        return _injective_key(f, key.args[0], depth + 1)
+    if isinstance(key, ast.GeneratorExp) and len(key.generators) == 1 and not key.generators[0].ifs:
+        return _injective_key(f, key.generators[0].iter, depth + 1) and isinstance(key.elt, (ast.Name, ast.Call, ast.Attribute))
+    return False
 
 
 ARRAY_MAKERS = ("asarray", "array", "ascontiguousarray", "zeros", "ones", "empty", "full", "stack", "vstack", "hstack", "concatenate", "copy")
